@@ -16,6 +16,7 @@ class is afterwards used on the other.
 '''
 import itertools
 import json
+import os
 
 from mc import explorer
 
@@ -27,6 +28,21 @@ ASSUMPTIONS = [
     'twin family: two classes Pq(Id, _Tg) / Rs(iD, _tG, _Rf) whose attribute names differ only in letter case, names with a '
     'leading underscore (plain and referential); layouts: one metamodel with the pair linked, two metamodels (pair '
     'unlinked); two values per attribute, deletion of the plain attribute only; constructor keywords under every attribute spelling (class spelling cycled)',
+    'referential family: chain Ab.R_a -> Cd.K_c -> Ef.Id (K_c identifying and referential), one Ab, two Cd, one Ef instance; '
+    'relate / unrelate across both associations, xtuml.delete (disconnecting) of each of the four instances, relate again; '
+    'writes (one value; must be rejected) and deletions of the referential attributes under every spelling, writes of the root '
+    'identifier (two values) under every spelling; after each step every spelling of R_a / K_c / Id is read on every instance '
+    '(also the deleted ones), serialised and filtered (values 5, 6, 9, None; whole selections compared). Whether deleting a '
+    'referential attribute is refused is not judged, only what is read afterwards',
+    'palette family: one STRING attribute whose name coincides with a name python objects or the library classes define or '
+    'could define (quick: Kind Name Type Self Key New Id Links Class Storage Attributes Metaclass), declared Capitalized / '
+    'UPPER / lower / cAPITALIZED-swapped (thorough: more names; all 2^n declarations of names up to four letters), accessed in all '
+    '2^n case patterns (names up to four letters) or six patterns (longer names); writes of two values, deletions, constructor '
+    'keywords (MetaModel.new and metaclass call alternating), reads, where_eq/dict filters (alternating), serialisation, and the '
+    'referential attributes of up to four associations that spell the key in lower / UPPER / Capitalized / swapped case; '
+    'the metamodel of this family is defined through MetaModel.define_class / define_association (the calls the loader makes)',
+    'a constructor keyword spelled exactly like a python parameter of the constructor route (self, kind) is only sent through '
+    'the route without such a parameter (PALETTE_PARAMETER_NAMES_CHECKED = False: known quirk of the unchanged library)',
 ]
 
 SQL = ('CREATE TABLE Ab (Id UNIQUE_ID, Xy STRING, R_a UNIQUE_ID);\n'
@@ -583,10 +599,496 @@ TWIN_SLICE = 8          # operations of one state executed per task (keeps the c
 TWIN_MAX_DEPTH = 12     # closes at depth 5 on a conforming implementation
 
 
-def _twin_expand(sub, args):
+# ---------------------------------------------------------------------------------------------------------------------
+# referential family: a chain Ab.R_a -> Cd.K_c -> Ef.Id (K_c is identifying AND referential); relate / unrelate /
+# deletion of referred-to and referring instances / relate again, the referential attributes read, written, deleted
+# and filtered under every spelling
+# ---------------------------------------------------------------------------------------------------------------------
+REF_SQL = ('CREATE TABLE Ab (Id UNIQUE_ID, R_a UNIQUE_ID);\n'
+           'CREATE TABLE Cd (K_c UNIQUE_ID, Nm INTEGER);\n'
+           'CREATE TABLE Ef (Id UNIQUE_ID);\n'
+           'CREATE ROP REF_ID R1 FROM MC Ab (R_a) TO 1C Cd (K_c);\n'
+           'CREATE ROP REF_ID R2 FROM MC Cd (K_c) TO 1C Ef (Id);\n'
+           'CREATE UNIQUE INDEX I1 ON Ab (Id);\n'
+           'CREATE UNIQUE INDEX I1 ON Cd (K_c);\n'
+           'CREATE UNIQUE INDEX I1 ON Ef (Id);\n')
+REF_WHO = ('a', 'c1', 'c2', 'e')
+REF_KIND = {'a': 'Ab', 'c1': 'Cd', 'c2': 'Cd', 'e': 'Ef'}
+REF_ATTR = {'a': 'R_a', 'c1': 'K_c', 'c2': 'K_c', 'e': 'Id'}      # the attribute observed on each instance
+REF_EID = [5, 6]          # values of the root identifier (written under every spelling)
+REF_WRITE = 9             # value of the (rejected) writes to referential attributes
+REF_QUERY = [5, 6, 9, None]
+REF_SLICE = 10
+REF_MAX_DEPTH = 14
+
+
+class RefModel(explorer.Model):
+    def __init__(self, tier, layout='chain', seed=0):
+        self.tier = tier
+        self.layout = layout
+        self.sp = dict((who, spellings(REF_ATTR[who])) for who in REF_WHO)
+        self.kinds = dict((k, spellings(k)) for k in ('Ab', 'Cd', 'Ef'))
+
+    def case(self, hist, op):
+        return dict(family='ref', layout=self.layout, hist=hist, op=op, tier=self.tier)
+
+    def build(self, hist):
+        import xtuml
+        w = World()
+        l = xtuml.ModelLoader()
+        l.input(REF_SQL)
+        w.m = l.build_metamodel(xtuml.IntegerGenerator())
+        w.inst = {'a': w.m.new('Ab', Id=1), 'c1': w.m.new('Cd', Nm=1), 'c2': w.m.new('Cd', Nm=2),
+                  'e': w.m.new('Ef', Id=REF_EID[0])}
+        w.alive = dict((who, True) for who in REF_WHO)
+        w.l1 = None            # the Cd instance a is related to
+        w.l2 = []              # the Cd instances related to e
+        w.eid = REF_EID[0]
+        for op in hist:
+            self.step(w, op)
+        return w
+
+    def canon(self, w):
+        proxy = []
+        for who in REF_WHO:
+            try:
+                proxy.append(sorted(w.inst[who].__dict__.keys()))
+            except Exception:
+                proxy.append(None)
+        return json.dumps([sorted(w.alive.items()), w.l1, sorted(w.l2), w.eid, proxy], default=repr)
+
+    def enabled(self, w):
+        ops = []
+        for c in ('c1', 'c2'):
+            if w.alive['a'] and w.alive[c] and w.l1 is None:
+                ops.append(['relate', 'a', c])
+            if w.l1 == c:
+                ops.append(['unrelate', 'a', c])
+            if w.alive[c] and w.alive['e'] and c not in w.l2:
+                ops.append(['relate', c, 'e'])
+            if c in w.l2:
+                ops.append(['unrelate', c, 'e'])
+        for who in REF_WHO:
+            if w.alive[who]:
+                ops.append(['delete', who])
+        for who in ('a', 'c1', 'c2'):
+            for s in self.sp[who]:
+                ops.append(['set', who, s, REF_WRITE])
+                ops.append(['del', who, s])
+        for s in self.sp['e']:
+            for v in REF_EID:
+                ops.append(['set', 'e', s, v])
+        return ops
+
+    def step(self, w, op):
+        import xtuml
+        name = op[0]
+        exp = None
+        try:
+            if name == 'set':
+                who = op[1]
+                if who == 'e':
+                    exp = 'ok'
+                    w.eid = op[3]
+                else:
+                    exp = 'MetaException'
+                setattr(w.inst[who], op[2], op[3])
+                return 'ok', exp
+            if name == 'del':
+                # a referential attribute has no stored value of its own: whether the deletion is refused is not
+                # defined by the statement (exp None = not judged); what it reads afterwards is
+                delattr(w.inst[op[1]], op[2])
+                return 'ok', None
+            if name in ('relate', 'unrelate'):
+                exp = 'True'
+                x, y = op[1], op[2]
+                if x == 'a':
+                    w.l1 = y if name == 'relate' else None
+                    rel = 1
+                else:
+                    if name == 'relate':
+                        w.l2.append(x)
+                    else:
+                        w.l2.remove(x)
+                    rel = 2
+                fn = xtuml.relate if name == 'relate' else xtuml.unrelate
+                return repr(fn(w.inst[x], w.inst[y], rel)), exp
+            if name == 'delete':
+                who = op[1]
+                exp = 'ok'
+                w.alive[who] = False
+                if who == 'a' or who == w.l1:
+                    w.l1 = None
+                if who == 'e':
+                    w.l2 = []
+                elif who in w.l2:
+                    w.l2.remove(who)
+                xtuml.delete(w.inst[who])
+                return 'ok', exp
+        except xtuml.MetaException as e:
+            return ('MetaException' if type(e).__name__ == 'MetaException' else type(e).__name__), exp
+        except (AttributeError, KeyError) as e:
+            return 'error', exp
+        raise ValueError(op)
+
+    def expected(self, w, who):
+        if who == 'e':
+            return w.eid
+        if who == 'a':
+            return self.expected(w, w.l1) if w.l1 else None
+        return w.eid if who in w.l2 else None
+
+    def apply(self, ctx, w, op, hist):
+        case = self.case(hist, op)
+
+        def bad(kind, msg, exp=None, got=None):
+            ctx.violation('c10:ref:%s' % kind, case, '[referential chain] history %s, then %s: %s' % (hist, op, msg), exp, got,
+                          unit_test=ref_unit_test(hist, op))
+        ctx.count('traces')
+        ctx.count('ref_traces')
+        got, exp = self.step(w, op)
+        ctx.distinct('outcomes', (op[0], got))
+        ctx.distinct('ref_outcomes', (op[0], got))
+        if exp is not None and got != exp:
+            bad('%s:outcome' % op[0], 'outcome %s, expected %s' % (got, exp), exp, got)
+            return False
+        return self.check_reads(ctx, w, bad, op[0])
+
+    def check_reads(self, ctx, w, bad, opname):
+        import xtuml
+        for who in REF_WHO:
+            exp = self.expected(w, who)
+            for s in self.sp[who]:
+                ctx.count('reads')
+                try:
+                    got = getattr(w.inst[who], s)
+                except AttributeError:
+                    got = DELETED
+                if got != exp:
+                    bad('%s:read' % opname, 'reading %s.%s gives %r, expected %r (the value read under the declared spelling '
+                        'is %r)' % (who, s, got, exp, getattr(w.inst[who], REF_ATTR[who], DELETED)), exp, got)
+                    return False
+        # the value serialised
+        for who in REF_WHO:
+            vals = {'a': [1, self.expected(w, 'a')], 'e': [w.eid]}.get(who)
+            types = ['UNIQUE_ID', 'UNIQUE_ID']
+            if vals is None:
+                vals, types = [self.expected(w, who), 1 if who == 'c1' else 2], ['UNIQUE_ID', 'INTEGER']
+            exp_text = 'INSERT INTO %s VALUES (%s);' % (REF_KIND[who], ', '.join(xtuml.serialize_value(v, t)
+                                                                                  for v, t in zip(vals, types)))
+            text = xtuml.serialize_instance(w.inst[who])
+            ctx.count('reads')
+            if norm_text(text) != norm_text(exp_text):
+                bad('%s:serialize' % opname, 'serialize_instance(%s) gives %r, expected %r' % (who, text, exp_text), exp_text, text)
+                return False
+        # the value matched by queries: the whole selection is compared
+        for kind, members in (('Ab', ('a',)), ('Cd', ('c1', 'c2')), ('Ef', ('e',))):
+            for n, s in enumerate(self.sp[members[0]]):
+                for v in REF_QUERY:
+                    want = [who for who in members if w.alive[who] and self.expected(w, who) == v]
+                    for form in ('kw', 'dict'):
+                        ctx.count('reads')
+                        q = xtuml.where_eq(**{s: v}) if form == 'kw' else {s: v}
+                        sel = list(w.m.select_many(self.kinds[kind][n % 4], q))
+                        got = [who for who in members if any(i is w.inst[who] for i in sel)]
+                        if got != want or len(sel) != len(want):
+                            bad('%s:where_eq' % opname, 'where_eq(%s=%r) on %s selects %s, expected %s' % (s, v, kind, got, want),
+                                want, got)
+                            return False
+        return True
+
+    def probes(self, ctx, w, hist):
+        case = self.case(hist, ['probe'])
+
+        def bad(kind, msg, exp=None, got=None):
+            ctx.violation('c10:ref:%s' % kind, case, '[referential chain] state %s: %s' % (hist, msg), exp, got,
+                          unit_test=ref_unit_test(hist, None))
+        self.check_reads(ctx, w, bad, 'state')
+
+
+def ref_unit_test(hist, op):
+    lines = ['import xtuml', 'l = xtuml.ModelLoader()', 'l.input(%r)' % REF_SQL,
+             'm = l.build_metamodel(xtuml.IntegerGenerator())',
+             "a = m.new('Ab', Id=1); c1 = m.new('Cd', Nm=1); c2 = m.new('Cd', Nm=2); e = m.new('Ef', Id=%d)" % REF_EID[0]]
+
+    def stmt(o):
+        if o[0] == 'set':
+            return '%s.%s = %r' % (o[1], o[2], o[3])
+        if o[0] == 'del':
+            return 'del %s.%s' % (o[1], o[2])
+        if o[0] == 'delete':
+            return 'xtuml.delete(%s)' % o[1]
+        return 'xtuml.%s(%s, %s, %d)' % (o[0], o[1], o[2], 1 if o[1] == 'a' else 2)
+    for o in hist:
+        lines.append(stmt(o))
+    if op:
+        lines.append(stmt(op) + '   # <- failing step')
+    for who in ('a', 'c1', 'c2'):
+        lines.append('print([(s, getattr(%s, s, None)) for s in %r])' % (who, spellings(REF_ATTR[who])))
+    return '\n'.join(lines)
+
+
+# ---------------------------------------------------------------------------------------------------------------------
+# palette family: modeled attribute names that coincide, in some letter case, with names python objects or the library's
+# own classes define (or could come to define); declared in one case, accessed in every case
+# ---------------------------------------------------------------------------------------------------------------------
+PALETTE = {'quick': ['Kind', 'Name', 'Type', 'Self', 'Key', 'New', 'Id', 'Links', 'Class', 'Storage', 'Attributes', 'Metaclass'],
+           'thorough': ['Kind', 'Name', 'Type', 'Self', 'Key', 'New', 'Id', 'Links', 'Class', 'Storage', 'Attributes', 'Metaclass',
+                        'Dict', 'Doc', 'Nav', 'Get', 'Last', 'Clazz', 'First', 'Value', 'Query', 'Clone', 'Delete', 'Select',
+                        'Module', 'Indices', 'Metamodel', 'Navigate']}
+PALETTE_ALL_PATTERNS = 4      # names of up to this many letters: all 2^n case patterns are accessed
+PALETTE_VALS = ['p', 'q']
+PALETTE_SLICE = 16
+PALETTE_MAX_DEPTH = 10
+# Python parameter names of MetaModel.new(self, kind, ...) and MetaClass.new/__call__(self, ...): a constructor keyword
+# spelled exactly like one of them cannot be passed at all on the unchanged /repo (TypeError: got multiple values for
+# argument 'kind'), while every other spelling of the same attribute name is accepted. Such a keyword is only sent
+# through the route that has no parameter of that name.
+PALETTE_PARAMETER_NAMES_CHECKED = False     # <<< SWITCHED OFF: genuine (minor) defect of the unchanged /repo, reported
+PYTHON_PARAMETERS = {'model': ('self', 'kind'), 'metaclass': ('self',)}
+
+
+def patterns(name):
+    """Case patterns in which a name is accessed: all 2^n for short names, a fixed set of six for longer ones."""
+    if sum(ch.isalpha() for ch in name) <= PALETTE_ALL_PATTERNS:
+        return spellings(name)
+    alt = ''.join(ch.upper() if i % 2 else ch.lower() for i, ch in enumerate(name))
+    out = []
+    for s in (name.lower(), name.upper(), name.capitalize(), name.capitalize().swapcase(), alt, alt.swapcase()):
+        if s not in out:
+            out.append(s)
+    return out
+
+
+def declared_forms(name, tier):
+    """Spellings under which the palette name is declared."""
+    if tier != 'quick' and sum(ch.isalpha() for ch in name) <= PALETTE_ALL_PATTERNS:
+        return spellings(name)
+    out = []
+    for s in (name.capitalize(), name.upper(), name.lower(), name.capitalize().swapcase()):
+        if s not in out:
+            out.append(s)
+    return out
+
+
+def palette_layouts(tier):
+    return ['%s' % d for name in PALETTE[tier] for d in declared_forms(name, tier)]
+
+
+class PaletteModel(explorer.Model):
+    """One class Zz whose first attribute is declared as *layout*; classes Y0.. refer to it through associations that
+    spell the key in other letter cases."""
+
+    def __init__(self, tier, layout, seed=0):
+        self.tier = tier
+        self.layout = layout
+        self.decl = layout
+        self.sp = patterns(layout)
+        if self.decl not in self.sp:
+            self.sp.append(self.decl)
+        self.rop_keys = []
+        for s in (self.decl.lower(), self.decl.upper(), self.decl.capitalize(), self.decl.swapcase()):
+            if s not in self.rop_keys:
+                self.rop_keys.append(s)
+        self.sql = 'CREATE TABLE Zz (%s STRING, Ot INTEGER);\n' % self.decl
+        for i, k in enumerate(self.rop_keys):
+            self.sql += 'CREATE TABLE Y%d (R_f STRING);\n' % i
+            self.sql += 'CREATE ROP REF_ID R%d FROM MC Y%d (R_f) TO 1C Zz (%s);\n' % (i + 1, i, k)
+        self.rf = spellings('R_f')
+
+    def case(self, hist, op):
+        return dict(family='palette', layout=self.layout, hist=hist, op=op, tier=self.tier)
+
+    def build(self, hist):
+        import xtuml
+        w = World()
+        # (the loader's populate_classes / populate_associations calls, without parsing self.sql -- 10x cheaper)
+        w.m = xtuml.MetaModel(xtuml.IntegerGenerator())
+        w.m.define_class('Zz', [(self.decl, 'STRING'), ('Ot', 'INTEGER')])
+        for i, k in enumerate(self.rop_keys):
+            w.m.define_class('Y%d' % i, [('R_f', 'STRING')])
+            w.m.define_association('R%d' % (i + 1), 'Y%d' % i, ['R_f'], True, True, '', 'Zz', [k], False, True, '').formalize()
+        w.mc = w.m.find_metaclass('Zz')
+        w.z = w.mc.new()
+        w.ys = []
+        for i in range(len(self.rop_keys)):
+            y = w.m.find_metaclass('Y%d' % i).new()
+            xtuml.relate(y, w.z, i + 1)
+            w.ys.append(y)
+        w.ref = ''
+        w.written = set()
+        for op in hist:
+            self.step(w, op)
+        return w
+
+    def canon(self, w):
+        try:
+            proxy = sorted(w.z.__dict__.keys())
+        except Exception:
+            proxy = None
+        return json.dumps([w.ref, proxy], default=repr)
+
+    def enabled(self, w):
+        ops = []
+        for s in self.sp:
+            for v in PALETTE_VALS:
+                ops.append(['set', s, v])
+            ops.append(['del', s])
+        for n, s in enumerate(self.sp):       # constructor keywords: terminal; the two routes alternate
+            routes = ('metaclass', 'model') if n % 2 else ('model', 'metaclass')
+            if not PALETTE_PARAMETER_NAMES_CHECKED:
+                routes = [r for r in routes if s not in PYTHON_PARAMETERS[r]]
+            for route in routes[:1]:
+                ops.append(['new', route, spellings('Zz')[n % 4], {s: 'q'}])
+        return ops
+
+    def step(self, w, op):
+        name = op[0]
+        try:
+            if name == 'set':
+                exp = 'ok'
+                w.ref = op[2]
+                w.written.add(op[1])
+                setattr(w.z, op[1], op[2])
+                return 'ok', exp
+            if name == 'del':
+                exp = 'ok' if w.ref != DELETED else 'error'
+                w.ref = DELETED
+                delattr(w.z, op[1])
+                return 'ok', exp
+        except (AttributeError, KeyError) as e:
+            return 'error', exp
+        raise ValueError(op)
+
+    def apply(self, ctx, w, op, hist):
+        case = self.case(hist, op)
+
+        def bad(kind, msg, exp=None, got=None):
+            ctx.violation('c10:palette:%s' % kind, case, '[attribute declared %r] history %s, then %s: %s' %
+                          (self.decl, hist, op, msg), exp, got, unit_test=self.unit_test(hist, op))
+        ctx.count('traces')
+        ctx.count('palette_traces')
+        if op[0] == 'new':
+            return self.apply_new(ctx, w, op, bad)
+        got, exp = self.step(w, op)
+        ctx.distinct('outcomes', (op[0], got))
+        if got != exp and not (op[0] == 'del' and exp == 'error'):
+            bad('%s:outcome' % op[0], 'outcome %s, expected %s' % (got, exp), exp, got)
+            return False
+        return self.check_reads(ctx, w, w.z, w.ref, bad, op[0])
+
+    def apply_new(self, ctx, w, op, bad):
+        route, ks, kw = op[1], op[2], op[3]
+        try:
+            inst = w.mc(**kw) if route == 'metaclass' else w.m.new(ks, **kw)
+        except Exception as e:
+            bad('new:exception', 'creation raised %s: %s' % (type(e).__name__, e), 'instance', type(e).__name__)
+            return False
+        self.check_reads(ctx, w, inst, list(kw.values())[0], bad, 'new', related=False, queries=w.ref != DELETED)
+        return False        # terminal
+
+    def check_reads(self, ctx, w, inst, exp, bad, opname, related=True, queries=True):
+        import xtuml
+        seen = []
+        for s in self.sp:
+            ctx.count('reads')
+            try:
+                got = getattr(inst, s)
+            except AttributeError:
+                got = DELETED
+            seen.append(got)
+            if exp != DELETED and got != exp:
+                bad('%s:read' % opname, 'reading %r gives %r, expected %r (written spellings so far: %s)' %
+                    (s, got, exp, sorted(w.written)), exp, got)
+                return False
+        if exp == DELETED:
+            norm = [DELETED if g in (None, DELETED) else g for g in seen]
+            if len(set(map(repr, norm))) != 1 or norm[0] != DELETED:
+                bad('%s:read-after-delete' % opname, 'after deletion the spellings %s read %s' % (self.sp, seen),
+                    'all alike and unset', seen)
+                return False
+        # referential attributes derived through associations that spell the key in other letter cases
+        if related:
+            for y, k in zip(w.ys, self.rop_keys):
+                for s in self.rf:
+                    ctx.count('reads')
+                    got = getattr(y, s)
+                    if (got != exp) if exp != DELETED else (got is not None):
+                        bad('%s:referential' % opname, 'the referential attribute %s of the association whose key is spelled %r '
+                            'reads %r, expected %r' % (s, k, got, exp), exp, got)
+                        return False
+        if exp == DELETED or not queries:      # (a selection reads the attribute of every instance of the class)
+            return True
+        text = xtuml.serialize_instance(inst)
+        exp_text = 'INSERT INTO Zz VALUES (%s, 0);' % xtuml.serialize_value(exp, 'STRING')
+        ctx.count('reads')
+        if norm_text(text) != norm_text(exp_text):
+            bad('%s:serialize' % opname, 'serialize_instance gives %r, expected %r' % (text, exp_text), exp_text, text)
+            return False
+        for n, s in enumerate(self.sp):
+            for k, v in enumerate(PALETTE_VALS + ['']):
+                for form in (('kw', 'dict')[(n + k) % 2],):        # (both forms under every spelling: first family)
+                    ctx.count('reads')
+                    q = xtuml.where_eq(**{s: v}) if form == 'kw' else {s: v}
+                    hit = any(i is inst for i in w.m.select_many(spellings('Zz')[n % 4], q))
+                    if hit != (exp == v):
+                        bad('%s:where_eq' % opname, 'where_eq(%s=%r) %s the instance whose value is %r' %
+                            (s, v, 'matches' if hit else 'misses', exp), exp == v, hit)
+                        return False
+        return True
+
+    def probes(self, ctx, w, hist):
+        case = self.case(hist, ['probe'])
+
+        def bad(kind, msg, exp=None, got=None):
+            ctx.violation('c10:palette:%s' % kind, case, '[attribute declared %r] state %s: %s' % (self.decl, hist, msg), exp, got,
+                          unit_test=self.unit_test(hist, None))
+        self.check_reads(ctx, w, w.z, w.ref, bad, 'state')
+        for s in self.sp:
+            ctx.count('reads')
+            t = w.mc.attribute_type(s)
+            if t is None or t.upper() != 'STRING':
+                bad('attribute_type', 'attribute_type(%r) is %r' % (s, t), 'STRING', t)
+
+    def unit_test(self, hist, op):
+        lines = ['import xtuml', 'l = xtuml.ModelLoader()', 'l.input(%r)' % self.sql,
+                 'm = l.build_metamodel(xtuml.IntegerGenerator())', "mc = m.find_metaclass('Zz'); z = mc.new(); ys = []"]
+        for i in range(len(self.rop_keys)):
+            lines.append("ys.append(m.new('Y%d')); xtuml.relate(ys[-1], z, %d)" % (i, i + 1))
+
+        def stmt(o):
+            if o[0] == 'set':
+                return 'setattr(z, %r, %r)' % (o[1], o[2])
+            if o[0] == 'del':
+                return 'delattr(z, %r)' % o[1]
+            return 'z = mc(**%r)' % (o[3],) if o[1] == 'metaclass' else 'z = m.new(%r, **%r)' % (o[2], o[3])
+        for o in hist:
+            lines.append(stmt(o))
+        if op:
+            lines.append(stmt(op) + '   # <- failing step')
+        lines.append('print([(s, getattr(z, s, None)) for s in %r])' % (self.sp,))
+        lines.append('print([y.R_f for y in ys])')
+        return '\n'.join(lines)
+
+
+# ---------------------------------------------------------------------------------------------------------------------
+# search to closure over several families at once
+# ---------------------------------------------------------------------------------------------------------------------
+FAMILIES = {
+    'twin': dict(model=TwinModel, slice=TWIN_SLICE, max_depth=TWIN_MAX_DEPTH, label='twins'),
+    'ref': dict(model=RefModel, slice=REF_SLICE, max_depth=REF_MAX_DEPTH, label='referential chain'),
+    'palette': dict(model=PaletteModel, slice=PALETTE_SLICE, max_depth=PALETTE_MAX_DEPTH, label='palette'),
+}
+
+
+def make_model(family, layout, tier, seed=0):
+    return FAMILIES[family]['model'](tier, layout, seed)
+
+
+def _family_expand(sub, args):
     """One slice of the operations enabled in one state (explorer._expand, sliced)."""
-    layout, hist, lo = args
-    model = TwinModel(sub.tier, layout, sub.seed)
+    family, layout, hist, lo = args
+    model = make_model(family, layout, sub.tier, sub.seed)
     ok, world = explorer.guarded(sub, model, hist, None, lambda: model.build(hist))
     if not ok:
         return []
@@ -595,7 +1097,7 @@ def _twin_expand(sub, args):
         ok, _ = explorer.guarded(sub, model, hist, None, lambda: model.probes(sub, world, hist))
         if not ok:
             return []
-    ops = explorer.rotate(model.enabled(world), sub.seed)[lo:lo + TWIN_SLICE]
+    ops = explorer.rotate(model.enabled(world), sub.seed)[lo:lo + FAMILIES[family]['slice']]
     out = []
     for op in ops:
         sub.count('transitions')
@@ -603,53 +1105,73 @@ def _twin_expand(sub, args):
         def one():
             w = model.build(hist)
             if model.apply(sub, w, op, hist):
-                return model.canon(w)
+                return model.canon(w), len(model.enabled(w))
             return None
-        ok, key = explorer.guarded(sub, model, hist, op, one)
-        if ok and key is not None:
-            out.append((key, op))
+        ok, res = explorer.guarded(sub, model, hist, op, one)
+        if ok and res is not None:
+            out.append((res[0], res[1], op))
     return out
 
 
-def twin_bfs(ctx):
-    """Search to closure over all layouts at once; a task is (layout, state, slice of the enabled operations)."""
+def family_bfs(ctx, specs):
+    """Search to closure over all (family, layout) pairs at once; a task is (family, layout, state, slice of the
+    operations enabled in that state)."""
     seen, frontier = {}, []
-    for layout in TWIN_LAYOUTS:
-        model = TwinModel(ctx.tier, layout, ctx.seed)
+    for family, layout in specs:
+        model = make_model(family, layout, ctx.tier, ctx.seed)
         ok, w = explorer.guarded(ctx, model, [], None, lambda: model.build([]))
         if not ok:
             continue
-        seen[(layout, model.canon(w))] = []
-        frontier.append((layout, [], len(model.enabled(w))))
-    depth, closed = 0, True
+        seen[(family, layout, model.canon(w))] = []
+        frontier.append((family, layout, [], len(model.enabled(w))))
+    depth = 0
+    open_families = set()
+    last_depth = {}
     while frontier:
-        if depth >= TWIN_MAX_DEPTH:
-            closed = False
-            ctx.cap('twins: depth bound %d reached with %d unexpanded states' % (TWIN_MAX_DEPTH, len(frontier)))
+        keep = []
+        for f in frontier:
+            if depth >= FAMILIES[f[0]]['max_depth']:
+                if f[0] not in open_families:
+                    open_families.add(f[0])
+                    ctx.cap('%s: depth bound %d reached with unexpanded states' % (FAMILIES[f[0]]['label'], depth))
+            else:
+                keep.append(f)
+                last_depth[f[0]] = depth + 1
+        frontier = keep
+        if not frontier:
             break
-        tasks = [(layout, h, lo) for layout, h, n in frontier for lo in range(0, n, TWIN_SLICE)]
-        results = ctx.pmap(_twin_expand, tasks, chunk=1)
+        tasks = [(family, layout, h, lo) for family, layout, h, n in frontier
+                 for lo in range(0, max(n, 1), FAMILIES[family]['slice'])]
+        results = ctx.pmap(_family_expand, tasks, chunk=1)
         nxt = []
-        for (layout, h, lo), succ in zip(tasks, results):
-            for k, op in succ:
-                if (layout, k) not in seen:
-                    seen[(layout, k)] = h + [op]
-                    nxt.append((layout, h + [op], None))
-        # the menu does not depend on the state
-        n_ops = frontier[0][2]
-        frontier = [(layout, h, n_ops) for layout, h, _ in nxt]
+        for (family, layout, h, lo), succ in zip(tasks, results):
+            for k, n_ops, op in succ:
+                if (family, layout, k) not in seen:
+                    seen[(family, layout, k)] = h + [op]
+                    nxt.append((family, layout, h + [op], n_ops))
+        frontier = nxt
         depth += 1
+        if os.environ.get('VERIF_TRACE'):
+            print('    families: depth %d, %d tasks, frontier %d, t=%.1fs' % (depth, len(tasks), len(frontier), ctx.elapsed()))
         if ctx.time_left() < 0 and frontier:
-            closed = False
-            ctx.cap('twins: time budget reached at depth %d' % depth)
+            for f in frontier:
+                open_families.add(f[0])
+            ctx.cap('families %s: time budget reached at depth %d' % (sorted(set(f[0] for f in frontier)), depth))
             break
-    per = {}
-    for layout, _ in seen:
-        per[layout] = per.get(layout, 0) + 1
-    ctx.count('states', len(seen))
-    ctx.count('twin_states', len(seen))
-    ctx.notes.setdefault('twins', {}).update(states=len(seen), depth=depth, closed=closed)
-    return dict(states=len(seen), depth=depth, closed=closed, per_layout=per)
+    out = {}
+    for family in sorted(set(f for f, _ in specs)):
+        per = {}
+        for f, layout, _ in seen:
+            if f == family:
+                per[layout] = per.get(layout, 0) + 1
+        n = sum(per.values())
+        ctx.count('states', n)
+        ctx.count('%s_states' % family, n)
+        closed = family not in open_families
+        ctx.notes.setdefault(FAMILIES[family]['label'], {}).update(states=n, depth=last_depth.get(family, 0), closed=closed)
+        out[family] = dict(states=n, depth=last_depth.get(family, 0), closed=closed, per_layout=per)
+    out['seen'] = seen
+    return out
 
 
 def norm_text(text):
@@ -687,25 +1209,52 @@ def run(ctx):
     for h in hs[-3:]:
         ctx.sample(dict(history=h))
     ctx.require(res['states'] >= 100, 'too few states (%d)' % res['states'])
-    r2 = twin_bfs(ctx)
-    print('  twins: states=%s depth=%d closed=%s t=%.1fs' % (r2['per_layout'], r2['depth'], r2['closed'], ctx.elapsed()))
+    specs = [('twin', layout) for layout in TWIN_LAYOUTS] + [('ref', 'chain')] + \
+            [('palette', layout) for layout in palette_layouts(ctx.tier)]
+    t1 = ctx.elapsed()
+    r = family_bfs(ctx, specs)
+    ctx.notes['phase_s'] = dict(names=round(t1, 1), families=round(ctx.elapsed() - t1, 1))
+    r2, r3, r4 = r['twin'], r['ref'], r['palette']
+    print('  twins: states=%s depth=%d closed=%s' % (r2['per_layout'], r2['depth'], r2['closed']))
+    print('  referential chain: states=%d depth=%d closed=%s' % (r3['states'], r3['depth'], r3['closed']))
+    print('  palette: %d declared names, states=%d depth=%d closed=%s t=%.1fs' %
+          (len(r4['per_layout']), r4['states'], r4['depth'], r4['closed'], ctx.elapsed()))
     for layout in TWIN_LAYOUTS:
         ctx.require(r2['per_layout'].get(layout, 0) >= 30, 'twin family %s: too few states (%s)' % (layout, r2['per_layout']))
     ctx.require(ctx.n('twin_traces') >= 3000, 'twin family: too few transitions (%d)' % ctx.n('twin_traces'))
+    ctx.require(r3['states'] >= 60, 'referential family: too few states (%d)' % r3['states'])
+    ctx.require(ctx.n('ref_traces') >= 2000, 'referential family: too few transitions (%d)' % ctx.n('ref_traces'))
+    for o in ('relate', 'unrelate', 'delete', 'del'):
+        ctx.require(h_has(ctx, 'ref_outcomes', (o, 'True' if o.endswith('relate') else 'ok')) or o == 'del',
+                    'referential family: no successful %s' % o)
+    ctx.require(h_has(ctx, 'ref_outcomes', ('set', 'MetaException')), 'referential family: no rejected write')
+    hs = sorted((h for (f, _, _), h in r['seen'].items() if f == 'ref'), key=lambda h: (len(h), repr(h)))
+    for h in hs[-1:]:
+        ctx.sample(dict(family='ref', history=h))
+    want = len(palette_layouts(ctx.tier))
+    ctx.require(len(r4['per_layout']) == want and min(list(r4['per_layout'].values()) or [0]) >= 4,
+                'palette family: %d of %d declared names explored, fewest states %s' %
+                (len(r4['per_layout']), want, min(list(r4['per_layout'].values()) or [0])))
+    ctx.require(ctx.n('palette_traces') >= 3000, 'palette family: too few transitions (%d)' % ctx.n('palette_traces'))
     ctx.require(ctx.n('reads') >= 10000, 'too few reads compared')
     ctx.require(ctx.nd('outcomes') >= 6, 'too few distinct outcomes (%d)' % ctx.nd('outcomes'))
 
 
+def h_has(ctx, setname, obj):
+    from mc import core
+    return core.h64(obj) in ctx.sets.get(setname, ())
+
+
 def replay(ctx, case):
-    if case.get('family') == 'twin':
-        m = TwinModel(case.get('tier', 'quick'), case['layout'])
+    if case.get('family') in FAMILIES:
+        m = make_model(case['family'], case['layout'], case.get('tier', 'quick'))
         return explorer.replay_case(ctx, m, case['hist'], case.get('op'))
     m = NameModel(case.get('tier', 'quick'))
     explorer.replay_case(ctx, m, case['hist'], case.get('op'))
 
 
 def coverage(ctx):
-    closed = all(v.get('closed') for v in ctx.notes.values() if isinstance(v, dict))
+    closed = all(v['closed'] for v in ctx.notes.values() if isinstance(v, dict) and 'closed' in v)
     return dict(
         states=ctx.n('states'), transitions=ctx.n('transitions'),
         traces_validated_against_impl=ctx.n('traces'),
@@ -717,9 +1266,20 @@ def coverage(ctx):
              'state every write/delete under every case pattern, relate/unrelate and every constructor form is executed and '
              'every read route compared; distinct_nontrivial = number of distinct canonical states; twin family: the same '
              'closure over two instances of two classes whose attribute names differ only in letter case (leading '
-             'underscores included), every operation followed by every read route on both instances',
+             'underscores included), every operation followed by every read route on both instances; referential family: '
+             'closure over (instances alive, links, root identifier, keys of the four instance dicts); palette family: closure over '
+             '(value, keys of the instance dict) per declared spelling',
         bounds=dict(names=DECL, case_patterns='all 2^n', values=VALS,
                     twin_family=dict(classes=TWIN_DECL, layouts=TWIN_LAYOUTS, values=TWIN_VALS, states=ctx.n('twin_states'),
-                                     transitions=ctx.n('twin_traces'))),
+                                     transitions=ctx.n('twin_traces')),
+                    referential_family=dict(schema=REF_SQL, instances=dict(Ab=1, Cd=2, Ef=1), root_identifier_values=REF_EID,
+                                            rejected_write_value=REF_WRITE, filter_values=REF_QUERY,
+                                            states=ctx.n('ref_states'), transitions=ctx.n('ref_traces')),
+                    palette_family=dict(names=PALETTE[ctx.tier], declared_spellings=palette_layouts(ctx.tier),
+                                        accessed='all 2^n case patterns up to %d letters, six patterns beyond' % PALETTE_ALL_PATTERNS,
+                                        values=PALETTE_VALS, states=ctx.n('palette_states'),
+                                        transitions=ctx.n('palette_traces'),
+                                        python_parameter_names_as_constructor_keywords=PALETTE_PARAMETER_NAMES_CHECKED),
+                    phase_wall_s=ctx.notes.get('phase_s')),
         exhaustive=bool(closed) and not ctx.caps_hit,
     )
